@@ -163,7 +163,8 @@ class Run(object):
             "repo": env.REPO,
         }
         validate_evidence(ev)
-        path = os.path.join(env.VERIF, "evidence", "%s.json" % self.prop)
+        path = os.path.join(os.environ.get("VERIF_EVIDENCE_DIR") or os.path.join(env.VERIF, "evidence"),
+                            "%s.json" % self.prop)
         os.makedirs(os.path.dirname(path), exist_ok=True)
         tmp = path + ".tmp%d" % os.getpid()
         with open(tmp, "w") as fh:
